@@ -31,6 +31,7 @@
 
 #ifdef FOR_DOXYGEN
 #include "safe_str_lib.h"
+#include <limits.h>
 #else
 #include "safeclib_private.h"
 #endif
@@ -129,6 +130,7 @@ EXPORT errno_t _wcrtomb_s_chk(size_t *restrict retvalp, char *restrict dest,
 {
     size_t len;
     errno_t rc;
+    char buf[MB_LEN_MAX]; /* libc converts here: it stores up to MB_CUR_MAX bytes whatever dmax is */
 
     CHK_SRC_NULL("wcrtomb_s", retvalp)
     CHK_SRC_NULL("wcrtomb_s", ps)
@@ -150,10 +152,11 @@ EXPORT errno_t _wcrtomb_s_chk(size_t *restrict retvalp, char *restrict dest,
         }
     }
 
-    len = *retvalp = wcrtomb(dest, wc, ps);
+    len = *retvalp = wcrtomb(dest ? buf : NULL, wc, ps);
 
     if (likely(len < dmax)) {
         if (dest) {
+            memcpy(dest, buf, len);
 #ifdef SAFECLIB_STR_NULL_SLACK
             memset(&dest[len], 0, dmax - len);
 #else
